@@ -51,6 +51,8 @@ func main() {
 			runNodeAPI(*out, *seed, *tier)
 		case "transport":
 			runTransport(*out, *seed, *tier)
+		case "nodemonitor":
+			runNodeMonitor(*out, *seed, *tier)
 		case "subs":
 			runSubs(*out, *seed, *tier)
 		case "fsmrace":
